@@ -212,8 +212,9 @@ func search(subject, sub []rel.Value) int {
 			subOffset++
 		} else {
 			if subOffset > 0 && subOffset < len(sub) {
+				// restart at the candidate start following the failed one
+				subjectOffset -= subOffset
 				subOffset = 0
-				subjectOffset--
 			}
 		}
 		if subOffset == len(sub) {
